@@ -70,6 +70,137 @@ theorem next_patch_follows_merged (ubs : List UB) (h fresh : Nat) (last m : UB)
 example : mergeUB [⟨7, 0, 100, none, some 1⟩, ⟨7, 1, 101, some 100, some 2⟩, ⟨7, 2, 102, some 101, some 3⟩] 9
     = some ⟨7, 2, 102, none, some 9⟩ := by decide
 
+/-! ### a merged run of patches inside the chain -/
+
+/-- along a coherent chain the record uuid is constant and the patch index does not decrease -/
+theorem coherent_ends : ∀ (l : List UB) (first last : UB), coherent l = true →
+    l.head? = some first → l.getLast? = some last →
+    last.record = first.record ∧ first.index ≤ last.index
+  | [], _, _, _, hf, _ => by simp at hf
+  | [a], first, last, _, hf, hl => by
+    simp at hf hl; subst hf; subst hl; exact ⟨rfl, Nat.le_refl _⟩
+  | a :: b :: rest, first, last, hc, hf, hl => by
+    simp only [coherent, Bool.and_eq_true] at hc
+    simp at hf; subst hf
+    have hl' : (b :: rest).getLast? = some last := by simpa [List.getLast?_cons_cons] using hl
+    obtain ⟨h1, h2⟩ := coherent_ends (b :: rest) b last hc.2 rfl hl'
+    have hfo := hc.1
+    simp only [follows, Bool.and_eq_true, beq_iff_eq, decide_eq_true_eq] at hfo
+    exact ⟨h1.trans hfo.1.1, by omega⟩
+
+/-- coherence of a concatenation: both parts coherent and the seam is a valid link -/
+theorem coherent_append : ∀ (xs ys : List UB), coherent (xs ++ ys) =
+    (coherent xs && coherent ys &&
+      (match xs.getLast?, ys.head? with
+        | some a, some b => follows b a
+        | _, _ => true))
+  | [], ys => by simp [coherent]
+  | [a], [] => by simp [coherent]
+  | [a], b :: ys => by simp [coherent, Bool.and_comm]
+  | a :: b :: xs, ys => by
+    have ih := coherent_append (b :: xs) ys
+    simp only [List.cons_append] at ih ⊢
+    simp only [coherent, ih, List.getLast?_cons_cons]
+    cases follows b a <;> simp
+
+
+/-- **a merged run takes the place of the run inside the chain**: if `pre ++ run ++ post`
+(oldest first) is a coherent chain and `m` is the block `merge_files` writes for `run`
+(opened with `allow_baseless=True`), then `pre ++ [m] ++ post` is coherent. The link to the
+predecessor is what `prev_patch` of the OLDEST merged container provides. -/
+theorem squash_coherent (pre run post : List UB) (h : Nat) (m : UB)
+    (hc : coherent (pre ++ (run ++ post)) = true) (hm : mergeUB run h = some m) :
+    coherent (pre ++ ([m] ++ post)) = true := by
+  cases hf : run.head? with
+  | none => simp [mergeUB, hf] at hm
+  | some first =>
+  cases hl : run.getLast? with
+  | none => simp [mergeUB, hf, hl] at hm
+  | some last =>
+  obtain ⟨i1, i2, i3, i4, _⟩ := merge_identity run h first last m hf hl hm
+  rw [coherent_append, coherent_append run post] at hc
+  simp only [Bool.and_eq_true] at hc
+  obtain ⟨⟨hpre, ⟨hrun, hpost⟩, hseam2⟩, hseam1⟩ := hc
+  obtain ⟨e1, e2⟩ := coherent_ends run first last hrun hf hl
+  rw [coherent_append, coherent_append [m] post]
+  simp only [Bool.and_eq_true]
+  refine ⟨⟨hpre, ⟨rfl, hpost⟩, ?_⟩, ?_⟩
+  · -- the first block of `post` follows `m` as it followed `last`
+    simp only [hl] at hseam2
+    simp only [List.getLast?_singleton]
+    cases hp : post.head? with
+    | none => rfl
+    | some p =>
+      simp only [hp] at hseam2 ⊢
+      simpa [follows, i1, i2, i3] using hseam2
+  · -- `m` follows the last block of `pre` as `first` did
+    have hh : (run ++ post).head? = some first := by
+      cases run with
+      | nil => simp at hf
+      | cons a t => simpa using hf
+    simp only [hh] at hseam1
+    have hh' : ([m] ++ post).head? = some m := rfl
+    simp only [hh']
+    cases ha : pre.getLast? with
+    | none => rfl
+    | some a =>
+      simp only [ha] at hseam1 ⊢
+      simp only [follows, Bool.and_eq_true, beq_iff_eq, decide_eq_true_eq] at hseam1 ⊢
+      refine ⟨⟨?_, ?_⟩, ?_⟩
+      · rw [i1, e1]; exact hseam1.1.1
+      · rw [i2]; omega
+      · rw [i4]; exact hseam1.2
+
+/-! ### the refusal guard -/
+
+/-- merging is refused when the set contains a stub — whichever container of the set it is (in
+particular the oldest one of a stub with committed patches on top, re-opened from disk) and
+whether or not there is an uncommitted container -/
+theorem merge_refused_with_stub (flags : List Bool) (w : Bool) (h : true ∈ flags) :
+    mergeGuard flags w = .error .stub := by
+  have : flags.any id = true := List.any_eq_true.mpr ⟨true, h, rfl⟩
+  simp [mergeGuard, this]
+
+/-- merging is refused while there are uncommitted changes -/
+theorem merge_refused_when_writable (flags : List Bool) : mergeGuard flags true ≠ .ok () := by
+  unfold mergeGuard
+  split <;> simp
+
+/-- the guard lets a merge through exactly when no container is a stub and all are committed -/
+theorem merge_allowed_iff (flags : List Bool) (w : Bool) :
+    mergeGuard flags w = .ok () ↔ (∀ f ∈ flags, f = false) ∧ w = false := by
+  unfold mergeGuard
+  by_cases hs : flags.any id = true
+  · simp only [hs, if_true]
+    constructor
+    · intro h; cases h
+    · rintro ⟨h, _⟩
+      obtain ⟨f, hf, hid⟩ := List.any_eq_true.mp hs
+      have := h f hf
+      simp_all
+  · have hall : ∀ f ∈ flags, f = false := by
+      intro f hf
+      cases f with
+      | false => rfl
+      | true => exact absurd (List.any_eq_true.mpr ⟨true, hf, rfl⟩) hs
+    cases w
+    · constructor
+      · intro _; exact ⟨hall, rfl⟩
+      · intro _; simp [hs]
+    · simp [hs]
+
+/-- non-vacuity: a stub with two committed patches on top; a plain three-container record -/
+example : mergeGuard [true, false, false] false = .error .stub ∧
+    mergeGuard [false, false, false] false = .ok () ∧
+    mergeGuard [false, false, false] true = .error .writable := ⟨rfl, rfl, rfl⟩
+
+/-- non-vacuity of `squash_coherent`: patches 1..2 of a four-container chain squashed -/
+example : coherent ([⟨7, 0, 100, none, some 1⟩] ++ ([⟨7, 1, 101, some 100, some 2⟩, ⟨7, 2, 102, some 101, some 3⟩] ++
+      [⟨7, 3, 103, some 102, some 4⟩])) = true ∧
+    mergeUB [⟨7, 1, 101, some 100, some 2⟩, ⟨7, 2, 102, some 101, some 3⟩] 9 = some ⟨7, 2, 102, some 100, some 9⟩ ∧
+    coherent ([⟨7, 0, 100, none, some 1⟩] ++ ([⟨7, 2, 102, some 100, some 9⟩] ++ [⟨7, 3, 103, some 102, some 4⟩])) = true := by
+  decide
+
 /-! ## tree level: the merged container shows the overlay view of the source -/
 section tree
 open MetadorModel.Tree MetadorModel.Overlay MetadorModel.Single MetadorModel.Listing
